@@ -39,6 +39,13 @@ def run(ctx, log):
     for w in ["waar", "onwaar", "true", "false", "nul", "null", "nil", "niets", "en", "of", "niet", "not", "and", "or", "if", "else", "while", "for", "voor", "in", "tot", "doe", "einde", "end", "return", "geef", "break",
               "continue", "let", "var", "def", "fn", "function", "klasse", "class", "nieuw", "dit", "zelf", "lijst", "tekst", "getal", "andersals", "herhaal", "totdat", "Ja", "Nee", "Als", "Stel", "Functie", "ja_", "alsof", "stelt", "neen"]:
         trees.append([("let", w, ("int", 1)), ("expr", ("assign", ("id", w), ("infix", "+", ("id", w), ("int", 1)))), ("expr", ("fn", "f_" + w, [w], [("expr", ("id", w))])), ("expr", ("fn", w, ["p"], [("expr", ("id", "p"))])), ("expr", ("call", ("id", w), [("id", w)]))])
+    for t_ in ["\"privé\"", "é\\n", "a\\é\"", "🇳🇱\"", "\\", "tab\ten é", "{}\"€\"", "語\\語"]:
+        trees.append([("expr", ("str", t_))])
+        trees.append([("let", "s", ("str", t_)), ("expr", ("call", ("id", "lengte"), [("id", "s")]))])
+        trees.append([("expr", ("array", [("str", t_), ("str", "x"), ("str", t_)]))])
+    for fl_ in ["1.14", "1.36", "1.39", "1.57", "1.118", "0.1", "2.5", "3.14", "5.55", "1.00", "0.3", "7.07", "12.34", "99.99", "100.01", "4.35", "0.57", "1.005", "8.41", "2.675"] + ["%d.%02d" % (rng.randint(0, 300), rng.randint(0, 99)) for _ in range(150 if ctx.quick else 3000)]:
+        trees.append([("expr", ("float", fl_))])
+        trees.append([("expr", ("infix", "+", ("float", fl_), ("float", fl_)))])
     fnl = ("fn", "dubbel", ["x"], [("expr", ("infix", "*", ("id", "x"), ("int", 2)))])
     anon = ("fn", "", ["x"], [("expr", ("id", "x"))])
     for callee in (fnl, anon):
